@@ -3,6 +3,7 @@
 package signature
 
 import (
+	"maps"
 	"context"
 
 	"github.com/buildkite/go-pipeline"
@@ -115,10 +116,14 @@ func vpH_c01_tamper() {
 	r := "r" + vpStr(1, "a-c")
 	x := vpStr(1, "a-c")
 
+	// the step variable's name may end in a word the package itself mentions
+	// (names the code treats specially are names like any other)
+	an := "A" + vpStrConstLike("*", "^_[A-Z][A-Z_]*$", "")
+	shape := vpInt(0, 3) // how the caller spells the options, the same at both ends
 	mkStep := func() *pipeline.CommandStep {
 		return &pipeline.CommandStep{
 			Command: c,
-			Env:     map[string]string{"A": ev},
+			Env:     map[string]string{an: ev},
 			Plugins: pipeline.Plugins{{Source: "p#v1", Config: map[string]any{"k": cv}}, {Source: "q"}},
 		}
 	}
@@ -148,11 +153,12 @@ func vpH_c01_tamper() {
 		k := vpSigKey(alg, 1)
 		key, keySet, otherKeySet = k, vpKeySetOf(k), vpKeySetOf(vpSigKey(alg, 2))
 	}
-	sig, err := Sign(ctx, key, &CommandStepWithInvariants{CommandStep: *signed, RepositoryURL: r}, WithEnv(penv))
+	sig, err := Sign(ctx, key, &CommandStepWithInvariants{CommandStep: *signed, RepositoryURL: r}, vpCallOpts(penv, shape)...)
 	vpAssert(err == nil && sig != nil, "signing succeeds")
 	if sig == nil {
 		return
 	}
+	vpAssert(signed.Env[an] == ev && len(signed.Env) == 1 && len(penv) == 1 && penv["P"] == pv, "signing leaves the step's and the caller's env as they were")
 
 	// the presented world
 	pres := mkStep()
@@ -175,11 +181,11 @@ func vpH_c01_tamper() {
 		pres.Command = x
 	case 2:
 		vpAssume(x != ev)
-		pres.Env["A"] = x
+		pres.Env[an] = x
 	case 3:
 		pres.Env["B"] = x
 	case 4:
-		delete(pres.Env, "A")
+		delete(pres.Env, an)
 	case 5:
 		pres.Plugins[0].Source = "p#v2"
 	case 6:
@@ -250,7 +256,7 @@ func vpH_c01_tamper() {
 		pres.Matrix = vpDecoyed(vpMixedMatrix("l", "u"), decoy)
 		pres.Matrix.Adjustments[0].Skip = false
 	}
-	verr := Verify(ctx, rec, ks, &CommandStepWithInvariants{CommandStep: *pres, RepositoryURL: presRepo}, WithEnv(venv))
+	verr := Verify(ctx, rec, ks, &CommandStepWithInvariants{CommandStep: *pres, RepositoryURL: presRepo}, vpCallOpts(venv, shape)...)
 	if kind == 0 {
 		vpAssert(verr == nil, "the untouched step verifies (with unrelated variables in the verification env)")
 	} else {
@@ -384,4 +390,19 @@ func vpH_c01_source() {
 	vpAssume(err == nil && sig != nil)
 	verr := Verify(ctx, sig, k, &CommandStepWithInvariants{CommandStep: pres, RepositoryURL: "r"})
 	vpAssert(verr != nil, "a signature made for one plugin source does not verify a step that names another")
+}
+
+// vpCallOpts: the options of one Sign / Verify / SignSteps call in the shapes a
+// caller may give them: the env in one WithEnv, or preceded by another WithEnv
+// that carries a copy of it; debug signing off, on without a logger, on with one.
+func vpCallOpts(env map[string]string, shape int) []Option {
+	switch shape {
+	case 1:
+		return []Option{WithEnv(maps.Clone(env)), WithEnv(env)}
+	case 2:
+		return []Option{WithEnv(env), WithDebugSigning(true)}
+	case 3:
+		return []Option{WithLogger(&vpLogger{}), WithDebugSigning(true), WithEnv(env)}
+	}
+	return []Option{WithEnv(env)}
 }
